@@ -125,7 +125,7 @@ def real_outcome(doc, f, t, rng_op):
     return st      # valueError / internal / hang
 
 
-ANSWER = {"deleteGuards", "deleteApplies", "deleteRangeApplies"}
+ANSWER = {"deleteGuards", "deleteApplies", "deleteRangeApplies", "trivialApplies"}
 
 
 def tie_delete_applies(ctx, info, guards, doc, f, t, name, reqs, metas):
@@ -160,6 +160,43 @@ def check_delete_applies(ctx, replay, out):
         bad = [k for k, v in guards.items() if not v] + [k for k in sorted(h) if k != "topTextblock" and not h[k]] + \
             (["topTextblock"] if h.get("topTextblock") else [])
         ctx.count("%s_never_raises: hypotheses fail (%s)" % (replay["op"], ",".join(bad)[:80]))
+
+
+def tie_trivial_applies(ctx, info, guards, doc, f, t, sl, reqs, metas):
+    """`trivialFit_replace_applies` (lean/Props/C11.lean): for a closed slice, the hypotheses exactly (`fits_trivially` among
+    them) and the answer of `ReplaceStep(f, t, slice).apply(doc)` exactly; relationally: hypotheses true => it applied"""
+    from prosemirror.transform.replace import fits_trivially
+    from prosemirror.transform.replace_step import ReplaceStep
+    if sl.open_start or sl.open_end or f > t:
+        return
+    fits = bool(fits_trivially(doc.resolve(f), doc.resolve(t), sl))
+    st, res = outcome(lambda: ReplaceStep(f, t, sl).apply(doc))
+    if st == "ok":
+        real = "applies" if res.failed is None else "refused"
+    else:
+        real = "refused" if st == "failed" else st
+    exp = {"hyp": {"valid": True, "norm": True, "sliceNorm": True, "alignedFrom": pair_aligned(doc, f),
+                   "alignedTo": pair_aligned(doc, t), "fits": fits}, "model": real}
+    replay = {"schema": info.name, "doc": doc.to_json(), "from": f, "to": t, "slice": sl.to_json(), "real": real,
+              "guards": guards, "op": "trivial"}
+    reqs.append({"op": "trivialApplies", "s": info.lean_id, "doc": info.node(doc), "from": f, "to": t, "slice": info.slice(sl)})
+    metas.append(("trivialApplies", replay, exp))
+
+
+def check_trivial_applies(ctx, replay, out):
+    g = out.get("ok")
+    if not isinstance(g, dict):
+        return
+    h = g.get("hyp", {})
+    guards = replay.get("guards") or {}
+    if guards.get("textAbsorb") and guards.get("textStableC") and all(h.get(k) for k in
+                                                                      ("valid", "norm", "sliceNorm", "alignedFrom", "alignedTo", "fits")):
+        ctx.count("trivialFit_replace_applies: hypotheses hold")
+        if replay["real"] != "applies" or g.get("model") != "applies":
+            ctx.mismatch("trivialApplies:hypotheses-true-but-refused", replay, replay["real"], g)
+    else:
+        ctx.count("trivialFit_replace_applies: hypotheses fail (%s)" % ",".join(
+            [k for k in ("textAbsorb", "textStableC") if not guards.get(k)] + [k for k in sorted(h) if not h[k]])[:60])
 
 
 def tie_join_counterexample(ctx, reqs, metas):
